@@ -414,6 +414,65 @@ def scopy(self):
 '''
 
 
+PC = "/quantarhei/core/parcel.py"
+T_SETCONTENT = '''
+def set_content(self, obj):
+    self.content = obj
+    self.class_name = H_cn
+    self.qrversion = H_ver
+    self.comment = H_c
+'''
+T_PSAVE = '''
+def save(self, filename):
+    if isinstance(filename, str):
+        with open(filename, "wb") as f:
+            pickle.dump(self, f)
+    else:
+        pickle.dump(self, filename)
+'''
+T_LOADPARCEL = '''
+def load_parcel(filename):
+    if isinstance(filename, str):
+        with open(filename, "rb") as f:
+            obj = pickle.load(f)
+    else:
+        obj = pickle.load(filename)
+    if isinstance(obj, Parcel):
+        return obj.content
+    else:
+        raise Exception(H_msg)
+'''
+PICKLE_HOOKS = ("__getstate__", "__setstate__", "__reduce__", "__reduce_ex__", "__getnewargs__", "__getnewargs_ex__", "__copyreg__")
+
+
+def parcel(repo):
+    """Parcel.set_content keeps the object itself, Parcel.save pickles the parcel, load_parcel returns the content; and no class of the
+    package customises pickling, so what is stored is the raw __dict__ (Model.C18 part B: save = the raw (tag, protection, data) triple)"""
+    import os
+    import warnings
+    match_fn(fn_of(repo + PC, "Parcel.set_content"), T_SETCONTENT, what="Parcel.set_content")
+    match_fn(fn_of(repo + PC, "Parcel.save"), T_PSAVE, what="Parcel.save")
+    match_fn(fn_of(repo + PC, "load_parcel"), T_LOADPARCEL, what="load_parcel")
+    hooks = []
+    for root, _, files in os.walk(repo + "/quantarhei"):
+        for f in sorted(files):
+            if not f.endswith(".py"):
+                continue
+            path = os.path.join(root, f)
+            try:
+                with warnings.catch_warnings():
+                    warnings.simplefilter("ignore")
+                    tree = ast.parse(open(path, encoding="utf-8", errors="replace").read())
+            except SyntaxError:
+                raise Untranslatable("cannot parse %s" % path[len(repo):])
+            for node in ast.walk(tree):
+                if isinstance(node, ast.FunctionDef) and node.name in PICKLE_HOOKS:
+                    hooks.append("%s:%s" % (path[len(repo):], node.name))
+                elif isinstance(node, ast.Assign) and any(isinstance(t, ast.Name) and t.id in PICKLE_HOOKS for t in node.targets):
+                    hooks.append("%s:%s" % (path[len(repo):], ast.unparse(node.targets[0])))
+    return hooks
+
+
 def keep_expr(node):
     """the filter of the automatic tag over a key tg -> bool over tagv"""
     if (isinstance(node, ast.Call) and isinstance(node.func, ast.Name) and node.func.id == "isinstance" and len(node.args) == 2
@@ -559,6 +618,12 @@ Section GenDir.
   Lemma gen_savedir_is_model : forall s d tag x, gen_savedir s d tag x = savedir O TagRepaired s d tag x.
   Proof. intros. unfold gen_savedir. apply savedir_skel_is_model; first [reflexivity | exact g_keep_is_int | intros; unfold g_next; lia]. Qed.
 End GenDir.
+(* ---- parcels: Parcel.set_content keeps the object itself, Parcel.save pickles the parcel, load_parcel returns its content
+   (matched statement by statement); classes of the package that customise pickling (__getstate__, __reduce__, ...): %(hooks)s.
+   With none, a parcel holds the raw __dict__ of the object: Model.C18.save = the raw (tag, protection, data) triple ---- *)
+Definition g_pickle_hooks : nat := %(nhooks)s.
+Lemma gen_parcel_is_raw : g_pickle_hooks = 0%%nat.
+Proof. reflexivity. Qed.
 Open Scope string_scope.
 (* savedir and loaddir agree on the name of the table file and on the suffix of the parcels *)
 Lemma gen_dir_names_agree : %(hname_s)s = %(hname_l)s /\\ %(suffix_s)s = %(suffix_l)s.
@@ -610,13 +675,17 @@ def static(repo):
     out["md_npz_key_w"], out["md_npz_key_r"] = mkeys[("w", "KNpz")], mkeys[("r", "KNpz")]
     out["methods"] = "\n".join(notes)
     out.update(savedir(repo))
+    hooks = parcel(repo)
+    out["nhooks"] = "%d" % len(hooks)
+    out["hooks"] = ", ".join(hooks) if hooks else "none"
     what = ["datasaveable.py:DataSaveable._data_with_axis (both branches, dtype of the packed array)",
             "datasaveable.py:DataSaveable._extract_data_with_axis",
             "datasaveable.py:DataSaveable.save_data / load_data (dispatch chains)",
             "datasaveable.py:DataSaveable._exportDataToText, _saveBinaryData, _saveBinaryData_compressed, _saveMatlab (statement skeleton, library call, key)",
             "datasaveable.py:DataSaveable._importDataFromText (ndmin on both paths), _loadBinaryData, _loadBinaryData_compressed, _loadMatlab",
             "matrixdata.py:MatrixData.save_data / load_data and the six writers / readers",
-            "saveable.py:Saveable.savedir (fresh table, automatic tag), loaddir, save, load, scopy (statement skeletons)"]
+            "saveable.py:Saveable.savedir (fresh table, automatic tag), loaddir, save, load, scopy (statement skeletons)",
+            "parcel.py:Parcel.set_content, Parcel.save, load_parcel (statement skeletons) and a scan of the package for pickling hooks"]
     return C18_FILE % out, what
 
 
